@@ -38,7 +38,7 @@ Flat == << << <<0,0>>, <<3,0>>, <<0,3>> >>,                                     
 PolyIds == IF Big THEN {<<1,1>>, <<1,2>>, <<1,3>>, <<1,4>>, <<1,5>>, <<2,1>>, <<2,2>>, <<2,3>>, <<2,4>>, <<3,1>>, <<4,2>>, <<4,4>>}
            ELSE {<<1,2>>, <<1,4>>, <<2,3>>, <<3,1>>}
 Poly3(id) == EmbedPoly(Frames[id[1]], Flat[id[2]])
-SegEnds == IF Big THEN Lat3(3) ELSE {0, 1, 3} \X {0, 2, 3} \X {0, 1, 2}
+SegEnds == IF Big THEN Lat3(3) ELSE {0, 1, 3} \X {1, 2} \X {0, 1, 2}
 
 VARIABLE inp
 Start == [fn |-> "start"]
@@ -61,10 +61,12 @@ Inputs(fn) ==
          \cup {[fn |-> fn, pts |-> {p, q}, segs |-> (Segs(Lat3(1)))] :
              <<p, q>> \in {<<0,0,0>>, <<1,2,1>>, <<-1,0,2>>} \X {<<2,2,2>>, <<0,1,-1>>}}
     [] fn = "segment_segment_set" ->
-         {[fn |-> fn, a |-> ab[1], b |-> ab[2], segs |-> (Segs(Lat2(2)))] : ab \in Segs(Lat2(IF Big THEN 3 ELSE 2))}
+         {[fn |-> fn, a |-> ab[1], b |-> ab[2], segs |-> (Segs(Lat2(2)))] :
+             ab \in {s \in Segs(Lat2(IF Big THEN 3 ELSE 2)) : Big \/ s[1] \in {<<0,0>>, <<1,1>>, <<2,1>>}}}
          \cup (IF Big THEN {[fn |-> fn, a |-> ab[1], b |-> ab[2], segs |-> (Segs(Lat2(3)))] :
                               ab \in {s \in Segs(Lat2(3)) : s[1] \in {<<0,0>>, <<1,2>>, <<3,1>>}}} ELSE {})
-         \cup {[fn |-> fn, a |-> ab[1], b |-> ab[2], segs |-> (Segs(Lat3(1)))] : ab \in Segs(Lat3(1))}
+         \cup {[fn |-> fn, a |-> ab[1], b |-> ab[2], segs |-> (Segs(Lat3(1)))] :
+             ab \in {s \in Segs(Lat3(1)) : Big \/ s[1] \in {<<0,0,0>>, <<1,0,1>>}}}
          \cup (IF Big THEN {[fn |-> fn, a |-> ab[1], b |-> ab[2], segs |-> (Segs(Lat3(2)))] :
                               ab \in {s \in Segs(Lat3(2)) : s[1] = <<0,0,0>>}} ELSE {})
     [] fn = "segment_set" ->
